@@ -84,16 +84,13 @@ namespace detail
 		if((ix > 0x7f800000) ||	// x is nan
 			(iy > 0x7f800000))	// y is nan
 			return x + y;
-		if(abs(y - x) <= epsilon<float>())
+		if(hx == hy || (ix | iy) == 0)
 			return y;		// x=y, return y
 		if(ix == 0)
 		{				// x == 0
 			GLM_SET_FLOAT_WORD(x, (hy & 0x80000000) | 1);// return +-minsubnormal
-			t = x * x;
-			if(abs(t - x) <= epsilon<float>())
-				return t;
-			else
-				return x;	// raise underflow flag
+			t = x * x;		// raise underflow flag
+			return x;
 		}
 		if(hx >= 0)
 		{						// x > 0
@@ -139,16 +136,13 @@ namespace detail
 		if(((ix >= 0x7ff00000) && ((ix - 0x7ff00000) | lx) != 0) ||	// x is nan
 			((iy >= 0x7ff00000) && ((iy - 0x7ff00000) | ly) != 0))	// y is nan
 			return x + y;
-		if(abs(y - x) <= epsilon<double>())
+		if((hx == hy && lx == ly) || (ix | lx | iy | ly) == 0)
 			return y;									// x=y, return y
 		if((ix | lx) == 0)
 		{													// x == 0
 			GLM_INSERT_WORDS(x, hy & 0x80000000, 1);		// return +-minsubnormal
-			t = x * x;
-			if(abs(t - x) <= epsilon<double>())
-				return t;
-			else
-				return x;   // raise underflow flag
+			t = x * x;		// raise underflow flag
+			return x;
 		}
 		if(hx >= 0) {                             // x > 0
 			if(hx > hy || ((hx == hy) && (lx > ly))) {    // x > y, x -= ulp
